@@ -89,7 +89,8 @@ def run(chk):
         import shutil
         shutil.rmtree(wd, ignore_errors=True)
     chk.coverage["rule"] = ("one replay script per explored edge of the FragmentBuffer model (distinct = distinct (depth,last step)); "
-                            "sender: every (length, MTU) pair in the stated ranges")
+                            "sender: every (length, MTU) pair with MTU 1..24 (64 thorough) and length 0..3*MTU+1, seeded pairs up to 7000 bytes, "
+                            "and the byte boundaries of the 24-bit length / offset fields (255..2^24-1) at MTU 1200 and 16000")
     chk.coverage["exhaustive"] = True
     chk.assumptions += [
         "byte contents are position-coded (message s, byte p -> s*16+p+1); header domains are 0..MaxLen",
